@@ -35,6 +35,9 @@ ASSUMPTIONS = ['array entries are reals held in object ndarrays / lists of objec
 BOUNDS = {'quick': 'algebras R2, R1,1, 2D-PGA, R3; trailing shapes (3,), (2,3); 9 index forms; all 9 infix operators x both sides x {number, list, tuple, callable, nested}',
           'thorough': 'more operators/patterns per shape, 3DPGA'}
 OUTSIDE = ['element-wise arithmetic of native-dtype numpy arrays (numpy C code, trusted)', 'shapes beyond 2 trailing axes']
+LABEL_MOVEMENT = True
+RULE = ('cases are enumerated/seeded deterministically; a case is non-trivial when it moved at least one symbolic label through the real code '
+        '(data-movement identities are mostly decided by syntactic identity of the solver terms, the rest by a z3 query)')
 OPTS = {'rlimit': 200_000_000, 'canary_every': 10}
 CHUNKS_PER_WORKER = 10
 
